@@ -34,6 +34,9 @@ def units(tier, seed):
             descs.append(dict(engines=list(eng), gens=1 + k % 2, maximize=mx, obj=("plateau", "twofunnel", "plateau", "tiny_offset")[k % 4], Mh=4, seed=s, look_mid_step=bool((k + mx) % 2),
                               sprout={"kind": ("simple", "nbc")[(k + mx) % 2], "L": 2}, hib=bool((k // 2) % 2),
                               lsc=[None] + [{"kind": "metaepoch", "m": 1 + k % 2}] * (len(eng) - 1)))
+    for k2, eng in enumerate([e for e in shapes_h1() + shapes_h2() if not any(v.startswith("CMA") or v == "LOC" for v in e)][::3]):
+        descs.append(dict(engines=list(eng), gens=1 + k2 % 2, maximize=bool(k2 % 2), obj=("nanhalf", "nanhole")[k2 % 2], Mh=3, seed=s, sprout={"kind": ("simple", "nbc")[k2 % 2], "L": 2},
+                          hib=bool(k2 % 3 == 0), pop=(6, 10)[k2 % 2]))
     us = [{"kind": "run", "descs": c} for c in chunks(descs, 12)]
     for mode, desc in lifecycle_descs(tier, seed, objs=("plateau", "twofunnel"), maximize=(False, True)):
         if mode == "bounded":
@@ -52,7 +55,7 @@ def run_unit(unit):
 
 
 def finish(res, tier):
-    for f, n in (("looked at the tree mid-step", 200), ("report parsed", 500), ("marker checked", 300), ("marker checked at best==0.0", 20), (">=2 displayed demes", 300)):
+    for f, n in (("boundary checked (NaN objective, reduced clauses)", 20), ("looked at the tree mid-step", 200), ("report parsed", 500), ("marker checked", 300), ("marker checked at best==0.0", 20), (">=2 displayed demes", 300)):
         if res.flags[f] < n:
             raise Vacuous(f"coverage flag '{f}' seen only {res.flags[f]} times")
     if res.configs_completed < res.configs:
